@@ -14,8 +14,13 @@ while IFS=$'\t' read -r kind prop file expr only what; do
   verdict=UNEXPECTED
   if [ "$nochange" != 0 ]; then verdict="STALE (edit did not apply)";
   elif [ "$kind" = fail ] && [ "$rc" = 1 ]; then verdict=ok;
-  elif [ "$kind" = pass ] && [ "$rc" = 0 ]; then verdict=ok; fi
-  [ "$verdict" = ok ] && ok=$((ok+1)) || bad=$((bad+1))
+  elif [ "$kind" = pass ] && [ "$rc" = 0 ]; then verdict=ok;
+  # "brittle": a harmless edit the check is known NOT to accept (a documented limitation,
+  # DESIGN 8.9); it is listed so that the limitation stays visible and is noticed when it goes away
+  elif [ "$kind" = brittle ] && [ "$rc" = 1 ]; then verdict="ok (known brittleness: harmless edit reported)";
+  elif [ "$kind" = brittle ] && [ "$rc" = 0 ]; then verdict="ok (no longer brittle: make this a pass entry)";
+  fi
+  case "$verdict" in ok*) ok=$((ok+1));; *) bad=$((bad+1));; esac
   echo "$verdict	$kind	$prop	$file	$what	(exit=$rc)"
 done < selftest/corpus.tsv
 echo "selftest: $ok as expected, $bad unexpected"
